@@ -23,9 +23,9 @@ ASSUMPTIONS = [
     "tolerance 1e-9 absolute for round-trips (1e-6 when the rotation is within 1e-6 of a half-turn, the looser "
     "bound stated in DESIGN.md); at |psi| = pi the rotation vector's sign is not unique so Exp(Log A) is "
     "compared as a matrix",
-    "T_SO3 evaluates (1-cos a)/a^2 in float64, whose forward error times |psi| is min(a, 4 eps/a) <= 3e-8 "
-    "(attained near a=1e-8); that bound is added to the 1e-9 tolerance of every clause that goes through T_SO3 "
-    "(the statement does not forbid it); T*T_inv is compared relative to (1+max|T_inv|); the band "
+    "T_SO3 used to evaluate (1-cos a)/a^2 with cancellation (forward error times |psi| up to 3e-8 near a=1e-8), "
+    "which the first version of this check allowed for; it was repaired as F45 and the allowance removed: every "
+    "clause through T_SO3 holds to 1e-9; T*T_inv is compared relative to (1+max|T_inv|); the band "
     "(2pi-1e-6, 2pi) where T is singular is excluded",
     "matrices A handed to Log are the float64 rounding of an exact rotation (entries within 1.2e-16)",
 ]
@@ -131,7 +131,8 @@ def check(spec):
 
     def cancel(ang):
         """forward-error bound of T_SO3's (1-cos a)/a^2 * skew(psi) in float64: min(a, 4 eps / a)"""
-        return min(ang, 4 * eps / ang) if ang > 0 else 0.0
+        # since fix F45 the factor is evaluated in half-angle form; no allowance is made any more
+        return 0.0
     fpsi = {"angle": a, "pi_minus_angle": math.pi - a}
 
     # --- Exp yields a rotation and matches the reference --------------------------------
